@@ -29,6 +29,30 @@ class MachineryError(Exception):
     """The checking machinery failed (not a property violation)."""
 
 
+class Hang(Exception):
+    """the code under test did not return within the deadline"""
+
+
+class deadline(object):
+    """with deadline(seconds): ... raises Hang when the body (pure Python code under test) does not finish in time"""
+    def __init__(self, seconds):
+        self.seconds = seconds
+
+    def _alarm(self, *a):
+        raise Hang("no result after %d s" % self.seconds)
+
+    def __enter__(self):
+        import signal
+        self.old = signal.signal(signal.SIGALRM, self._alarm)
+        signal.alarm(self.seconds)
+
+    def __exit__(self, *a):
+        import signal
+        signal.alarm(0)
+        signal.signal(signal.SIGALRM, self.old)
+        return False
+
+
 class Ctx(object):
     def __init__(self, pid, tier, seed):
         self.pid = pid
